@@ -304,7 +304,8 @@ TCreate == /\ IsEvent("create") /\ UNCHANGED sugg /\ UNCHANGED cvars
            /\ \/ /\ Rec[l].res = "ok" /\ Len(Rec[l].txs) = 1
                  /\ LET x == Rec[l].txs[1]
                         S == { Rec[l].inputs[i][1] : i \in DOMAIN Rec[l].inputs }
-                    IN  /\ Create(x.t, Rec[l].target, x.exp, S, x.outs)
+                        K == CreateChange(x.outs) \cap { Rec[l].post.notes[i].n : i \in DOMAIN Rec[l].post.notes }
+                    IN  /\ Create(x.t, Rec[l].target, x.exp, S, x.outs, K)
                         /\ S \subseteq known /\ \A i \in DOMAIN Rec[l].inputs : ninfo[Rec[l].inputs[i][1]].v = Rec[l].inputs[i][2]
                         /\ x.nf_missing = 0 /\ x.nf_extra = 0
                         /\ x.exp = (IF Rec[l].expreq = -1 THEN Rec[l].target + ExpiryDelta ELSE Rec[l].expreq)
@@ -312,7 +313,7 @@ TCreate == /\ IsEvent("create") /\ UNCHANGED sugg /\ UNCHANGED cvars
                               = SumSeq([i \in DOMAIN x.outs |-> x.outs[i].v]) + Rec[l].fee
                         \* the pinned code releases the locks on the notes the transaction spends (the spend records protect
                         \* them now); keeping them would do no harm, so either is allowed
-                        /\ \E K \in { S \cap DOMAIN locks, {} } : locks' = [n \in DOMAIN locks \ K |-> locks[n]]
+                        /\ \E LK \in { S \cap DOMAIN locks, {} } : locks' = [n \in DOMAIN locks \ LK |-> locks[n]]
               \/ Rec[l].res = "err" /\ UNCHANGED wvars /\ UNCHANGED locks     \* refusals (stale proposal, missing witness): no effect
            /\ PostOK(Rec[l].post)
 
